@@ -28,7 +28,8 @@ def tagFrom : Nat → List (Side × Notif α) → List (Side × Notif (Nat × α
   | _, [] => []
   | n, (sd, x) :: tr => (sd, x.map (fun v => (n, v))) :: tagFrom (n + 1) tr
 
-def untagSt (s : SeqSt (Nat × α)) : SeqSt α := { donel := s.donel, doner := s.doner, ql := s.ql.map (·.2), qr := s.qr.map (·.2) }
+def untagSt (s : SeqSt (Nat × α)) : SeqSt α :=
+  { donel := s.donel, doner := s.doner, ql := s.ql.map (·.2), qr := s.qr.map (·.2), decided := s.decided }
 def untagRun (st : SeqRun (Nat × α)) : SeqRun α := { upL := st.upL, upR := st.upR, s := untagSt st.s, down := st.down }
 
 theorem orient_older (c : α → α → Bool) (i n : Nat) (v x : α) (h : i < n) : orient c (i, v) (n, x) = c v x := by
@@ -45,19 +46,28 @@ theorem seqHandle_sim (c : α → α → Bool) (n : Nat) (s : SeqSt (Nat × α))
     ∧ (seqHandle (fun a b => .ok (c a b)) (untagSt s) sd x).esc = (seqHandle (fun a b => .ok (orient c a b)) s sd (x.map (fun v => (n, v)))).esc
     ∧ ∀ q ∈ (seqHandle (fun a b => .ok (orient c a b)) s sd (x.map (fun v => (n, v)))).st.ql
             ++ (seqHandle (fun a b => .ok (orient c a b)) s sd (x.map (fun v => (n, v)))).st.qr, q.1 < n + 1 := by
-  obtain ⟨dl, dr, ql, qr⟩ := s
+  obtain ⟨dl, dr, ql, qr, dec⟩ := s
   simp only at hold
   have hold' : ∀ q ∈ ql ++ qr, q.1 < n + 1 := fun q h => Nat.lt_succ_of_lt (hold q h)
+  cases dec with
+  | true => exact ⟨rfl, rfl, rfl, hold'⟩
+  | false =>
+  have hU : ∀ (cmp : α → α → Except Err Bool) (s : SeqSt α) sd x, s.decided = false → seqHandle cmp s sd x = seqHandleU cmp s sd x := by
+    intro cmp s sd x h; simp [seqHandle, h]
+  have hU' : ∀ (cmp : (Nat × α) → (Nat × α) → Except Err Bool) (s : SeqSt (Nat × α)) sd x, s.decided = false →
+      seqHandle cmp s sd x = seqHandleU cmp s sd x := by
+    intro cmp s sd x h; simp [seqHandle, h]
+  rw [hU _ _ _ _ rfl, hU' _ _ _ _ rfl]
   cases sd with
   | L =>
     cases x with
     | error e => exact ⟨rfl, rfl, rfl, hold'⟩
     | completed =>
       refine ⟨?_, ?_, ?_, ?_⟩
-      · cases ql <;> cases qr <;> cases dr <;> simp [seqHandle, untagSt, Notif.map]
-      · cases ql <;> cases qr <;> cases dr <;> simp [seqHandle, untagSt, Notif.map]
-      · cases ql <;> cases qr <;> cases dr <;> simp [seqHandle, untagSt, Notif.map]
-      · cases ql <;> cases qr <;> cases dr <;> simpa [seqHandle, Notif.map] using hold'
+      · cases ql <;> cases qr <;> cases dr <;> simp [seqHandleU, emitD, untagSt, Notif.map]
+      · cases ql <;> cases qr <;> cases dr <;> simp [seqHandleU, emitD, untagSt, Notif.map]
+      · cases ql <;> cases qr <;> cases dr <;> simp [seqHandleU, emitD, untagSt, Notif.map]
+      · cases ql <;> cases qr <;> cases dr <;> simpa [seqHandleU, emitD, Notif.map] using hold'
     | next v =>
       cases qr with
       | cons p qr' =>
@@ -68,21 +78,21 @@ theorem seqHandle_sim (c : α → α → Bool) (n : Nat) (s : SeqSt (Nat × α))
           · exact List.mem_append_left _ h
           · exact List.mem_append_right _ (List.mem_cons_of_mem _ h))
         refine ⟨?_, ?_, ?_, ?_⟩
-        · simp only [seqHandle, untagSt, Notif.map, List.map_cons, orient_older c i n w v hi]
+        · simp only [seqHandleU, emitD, untagSt, Notif.map, List.map_cons, orient_older c i n w v hi]
           cases c w v <;> rfl
-        · simp only [seqHandle, untagSt, Notif.map, List.map_cons, orient_older c i n w v hi]
+        · simp only [seqHandleU, emitD, untagSt, Notif.map, List.map_cons, orient_older c i n w v hi]
           cases c w v <;> rfl
-        · simp only [seqHandle, untagSt, Notif.map, List.map_cons, orient_older c i n w v hi]
+        · simp only [seqHandleU, emitD, untagSt, Notif.map, List.map_cons, orient_older c i n w v hi]
           cases c w v <;> rfl
-        · simp only [seqHandle, Notif.map, orient_older c i n w v hi]
+        · simp only [seqHandleU, emitD, Notif.map, orient_older c i n w v hi]
           cases c w v <;> exact hq
       | nil =>
         cases dr with
         | true => exact ⟨rfl, rfl, rfl, hold'⟩
         | false =>
-          refine ⟨rfl, by simp [seqHandle, untagSt, Notif.map], rfl, ?_⟩
+          refine ⟨rfl, by simp [seqHandleU, emitD, untagSt, Notif.map], rfl, ?_⟩
           intro q hq
-          simp only [seqHandle, Notif.map, List.append_nil, List.mem_append, List.mem_singleton, Bool.false_eq_true, if_false] at hq
+          simp only [seqHandleU, emitD, Notif.map, List.append_nil, List.mem_append, List.mem_singleton, Bool.false_eq_true, if_false] at hq
           rcases hq with hq | hq
           · exact hold' q (List.mem_append_left _ hq)
           · subst hq; exact Nat.lt_succ_self n
@@ -91,10 +101,10 @@ theorem seqHandle_sim (c : α → α → Bool) (n : Nat) (s : SeqSt (Nat × α))
     | error e => exact ⟨rfl, rfl, rfl, hold'⟩
     | completed =>
       refine ⟨?_, ?_, ?_, ?_⟩
-      · cases ql <;> cases qr <;> cases dl <;> simp [seqHandle, untagSt, Notif.map]
-      · cases ql <;> cases qr <;> cases dl <;> simp [seqHandle, untagSt, Notif.map]
-      · cases ql <;> cases qr <;> cases dl <;> simp [seqHandle, untagSt, Notif.map]
-      · cases ql <;> cases qr <;> cases dl <;> simpa [seqHandle, Notif.map] using hold'
+      · cases ql <;> cases qr <;> cases dl <;> simp [seqHandleU, emitD, untagSt, Notif.map]
+      · cases ql <;> cases qr <;> cases dl <;> simp [seqHandleU, emitD, untagSt, Notif.map]
+      · cases ql <;> cases qr <;> cases dl <;> simp [seqHandleU, emitD, untagSt, Notif.map]
+      · cases ql <;> cases qr <;> cases dl <;> simpa [seqHandleU, emitD, Notif.map] using hold'
     | next v =>
       cases ql with
       | cons p ql' =>
@@ -105,21 +115,21 @@ theorem seqHandle_sim (c : α → α → Bool) (n : Nat) (s : SeqSt (Nat × α))
           · exact List.mem_append_left _ (List.mem_cons_of_mem _ h)
           · exact List.mem_append_right _ h)
         refine ⟨?_, ?_, ?_, ?_⟩
-        · simp only [seqHandle, untagSt, Notif.map, List.map_cons, orient_older c i n w v hi]
+        · simp only [seqHandleU, emitD, untagSt, Notif.map, List.map_cons, orient_older c i n w v hi]
           cases c w v <;> rfl
-        · simp only [seqHandle, untagSt, Notif.map, List.map_cons, orient_older c i n w v hi]
+        · simp only [seqHandleU, emitD, untagSt, Notif.map, List.map_cons, orient_older c i n w v hi]
           cases c w v <;> rfl
-        · simp only [seqHandle, untagSt, Notif.map, List.map_cons, orient_older c i n w v hi]
+        · simp only [seqHandleU, emitD, untagSt, Notif.map, List.map_cons, orient_older c i n w v hi]
           cases c w v <;> rfl
-        · simp only [seqHandle, Notif.map, orient_older c i n w v hi]
+        · simp only [seqHandleU, emitD, Notif.map, orient_older c i n w v hi]
           cases c w v <;> exact hq
       | nil =>
         cases dl with
         | true => exact ⟨rfl, rfl, rfl, hold'⟩
         | false =>
-          refine ⟨rfl, by simp [seqHandle, untagSt, Notif.map], rfl, ?_⟩
+          refine ⟨rfl, by simp [seqHandleU, emitD, untagSt, Notif.map], rfl, ?_⟩
           intro q hq
-          simp only [seqHandle, Notif.map, List.nil_append, List.mem_append, List.mem_singleton, Bool.false_eq_true, if_false] at hq
+          simp only [seqHandleU, emitD, Notif.map, List.nil_append, List.mem_append, List.mem_singleton, Bool.false_eq_true, if_false] at hq
           rcases hq with hq | hq
           · exact hold' q (by simpa using hq)
           · subst hq; exact Nat.lt_succ_self n
